@@ -13,6 +13,9 @@ pub const PLAIN_REF: &[M] = &[M::A0, M::A1, M::B0, M::B1, M::B2, M::B3, M::Z0];
 pub struct CfgOpts {
     pub max_methods: usize,
     pub max_patterns: usize,
+    /// lower bounds (1 unless a "wide" configuration is wanted)
+    pub min_methods: usize,
+    pub min_patterns: usize,
     /// percentage of methods configured with next_call
     pub ordered_pct: u64,
     pub allow_partial: bool,
@@ -31,6 +34,8 @@ impl Default for CfgOpts {
         Self {
             max_methods: 4,
             max_patterns: 5,
+            min_methods: 1,
+            min_patterns: 1,
             ordered_pct: 25,
             allow_partial: true,
             with_mut: true,
@@ -154,7 +159,7 @@ pub fn gen_config(rng: &mut Rng, o: &CfgOpts) -> Config {
         pool.push(M::Gm);
     }
     rng.shuffle(&mut pool);
-    let n_methods = rng.range(1, o.max_methods.min(pool.len()));
+    let n_methods = rng.range(o.min_methods.min(pool.len()).max(1), o.max_methods.min(pool.len()));
     let methods: Vec<M> = pool[..n_methods].to_vec();
     // nested calls may target any `&self` plain method (mentioned or not)
     let callable: Vec<M> = PLAIN_REF.to_vec();
@@ -163,15 +168,15 @@ pub fn gen_config(rng: &mut Rng, o: &CfgOpts) -> Config {
     let mut per_method: Vec<Vec<ClauseSpec>> = vec![];
     for m in &methods {
         let ordered = rng.chance(o.ordered_pct, 100);
-        let n_pat = if rng.chance(1, 12) {
+        let n_pat = if o.min_patterns <= 1 && rng.chance(1, 12) {
             0
         } else {
-            rng.range(1, o.max_patterns)
+            rng.range(o.min_patterns.max(1), o.max_patterns)
         };
         let mut clauses = vec![];
         let mut preds: Vec<u32> = vec![];
         let mut left = n_pat;
-        let generic = matches!(m, M::GenU8 | M::GenU16 | M::GmU8 | M::GmU16 | M::GpU8 | M::GpU16);
+        let generic = matches!(m, M::GenU8 | M::GenU16 | M::GmU8 | M::GmU16 | M::GpU8 | M::GpU16 | M::GiU8 | M::GiU16);
         while left > 0 {
             if generic {
                 // generic instantiations are built through a reduced builder path: one segment
@@ -630,6 +635,9 @@ pub fn gen_history(rng: &mut Rng, cfg: &Config, o: &HistOpts) -> (Vec<Vec<Op>>, 
         }
         let fault = if o.fault_every > 0 && rng.chance(1, o.fault_every) {
             gen_fault(rng, &st, m, x, y)
+        } else if o.fault_every > 0 && m.info().recv == Recv::Ref && rng.chance(1, 12) {
+            // the call comes from a destructor running during unwinding
+            Some(Fault::WhileUnwinding)
         } else {
             None
         };
